@@ -265,13 +265,14 @@ def run_one(seed, preset=None, tier="quick", want_case=False):
         engine = cook_engine(case.schema, name, cfg, sdl=case.sdl, pre=register_deny, **extra)
         out = execute_once(engine, text, op_name, variables, plan, tape.sub("sched"), sched[0], sched[1],
                            "gate" if use_coercer else sched[2], root_value=plan.root_value,
-                           context=context if kind == "context" else None, deny=deny_now)
+                           context=context if kind == "context" else None, deny=deny_now, consume_response=not use_coercer)
         out2, n_first = None, len(coerced)
         if use_coercer and out.exc is None and tape.sub("again").chance(50):
             # the same call once more on the same engine (parsed document and its errors now come from the
             # cache): the coercer is awaited again for every error of the second response
             out2 = execute_once(engine, text, op_name, variables, plan, tape.sub("sched2"), sched[0], sched[1], "gate",
-                                root_value=plan.root_value, context=context if kind == "context" else None, deny=deny_now)
+                                root_value=plan.root_value, context=context if kind == "context" else None, deny=deny_now,
+                                consume_response=False)
     finally:
         forget(name)
     viol = []
